@@ -30,6 +30,12 @@ Proof. reflexivity. Qed.
 Lemma be_be4 n : (n < 4294967296)%N -> be (be4 n) 0 = n.
 Proof. intros H. unfold be4, be. lia. Qed.
 
+Lemma be8_len n : length (be8 n) = 8%nat.
+Proof. reflexivity. Qed.
+
+Lemma be_be8 n : (n < 18446744073709551616)%N -> be (be8 n) 0 = n.
+Proof. intros H. unfold be8, be. lia. Qed.
+
 (* ---------------------------------------------------------------- SliceReader: header on a canonical layout *)
 Lemma read_fixed_mid k pre x post :
   zlen x = k -> zlen (pre ++ x ++ post) < two63 ->
@@ -75,17 +81,44 @@ Proof.
   rewrite zlen_app. replace (zlen pre + zlen (be4 size) + 4) with (zlen pre + 8) by (unfold zlen; cbn; lia). reflexivity.
 Qed.
 
+(* the 16-byte largesize header: size field 1, type, 64-bit size *)
+Lemma hdr_sr_canon_large pre nm size rest cst :
+  length nm = 4%nat -> (16 <= size < 4294967296)%N -> zlen (pre ++ be4 1 ++ nm ++ be8 size ++ rest) < two63 ->
+  decode_header_sr (mkS (mkR (pre ++ be4 1 ++ nm ++ be8 size ++ rest) (zlen pre) false) cst)
+  = (Ok (mkH nm size 16), mkS (mkR (pre ++ be4 1 ++ nm ++ be8 size ++ rest) (zlen pre + 16) false) cst).
+Proof.
+  intros Hn Hsz Hs. unfold decode_header_sr. cbn [sr scost].
+  rewrite (read_fixed_mid 4 pre (be4 1) (nm ++ be8 size ++ rest) eq_refl Hs).
+  change (be (be4 1) 0) with 1%N.
+  assert (Hz : zlen nm = 4) by (unfold zlen; rewrite Hn; reflexivity).
+  assert (E : pre ++ be4 1 ++ nm ++ be8 size ++ rest = (pre ++ be4 1) ++ nm ++ (be8 size ++ rest)) by (rewrite <- app_assoc; reflexivity).
+  replace (zlen pre + 4) with (zlen (pre ++ be4 1)) by (rewrite zlen_app; reflexivity).
+  rewrite E.
+  pose proof (read_fixed_string_mid (pre ++ be4 1) nm (be8 size ++ rest)) as R. rewrite Hz in R.
+  rewrite R by (rewrite <- E; exact Hs). clear R.
+  change (1 =? 1)%N with true. cbv iota.
+  assert (E2 : (pre ++ be4 1) ++ nm ++ be8 size ++ rest = ((pre ++ be4 1) ++ nm) ++ be8 size ++ rest) by (rewrite <- !app_assoc; reflexivity).
+  replace (zlen (pre ++ be4 1) + 4) with (zlen ((pre ++ be4 1) ++ nm)) by (rewrite (zlen_app _ nm); lia).
+  rewrite E2.
+  rewrite (read_fixed_mid 8 ((pre ++ be4 1) ++ nm) (be8 size) rest eq_refl) by (rewrite <- E2, <- E; exact Hs).
+  rewrite be_be8 by lia.
+  replace (size <? 16)%N with false by lia. cbn [rerr].
+  rewrite !zlen_app. replace (zlen pre + zlen (be4 1) + zlen nm + 8) with (zlen pre + 16) by (rewrite Hz; unfold zlen; cbn; lia). reflexivity.
+Qed.
+
 (* ---------------------------------------------------------------- canonical trees *)
 Section ctree_ind2.
   Variable P : ctree -> Prop.
   Hypothesis Hl : forall nm p, P (CLeaf nm p).
   Hypothesis Hc : forall nm kids, Forall P kids -> P (CNode nm kids).
+  Hypothesis Hg : forall nm p, P (CLarge nm p).
   Fixpoint ctree_ind2 (c : ctree) : P c :=
     match c with
     | CLeaf nm p => Hl nm p
     | CNode nm kids =>
         Hc nm kids ((fix go (l : list ctree) : Forall P l :=
                        match l with [] => Forall_nil _ | k :: r => Forall_cons _ (ctree_ind2 k) (go r) end) kids)
+    | CLarge nm p => Hg nm p
     end.
 End ctree_ind2.
 
@@ -105,10 +138,13 @@ Proof. intros H. cbn [cenc]. unfold lenN. rewrite !app_length, H. cbn [be4 lengt
 Lemma lenN_cenc_node nm kids : length nm = 4%nat -> lenN (cenc (CNode nm kids)) = (8 + lenN (cencs kids))%N.
 Proof. intros H. rewrite cenc_node. unfold lenN. rewrite !app_length, H. cbn [be4 length]. lia. Qed.
 
+Lemma lenN_cenc_large nm p : length nm = 4%nat -> lenN (cenc (CLarge nm p)) = (16 + lenN p)%N.
+Proof. intros H. cbn [cenc]. unfold lenN. rewrite !app_length, H. cbn [be4 be8 length]. lia. Qed.
+
 Lemma cenc_len_ge8 ld c : cwf ld c -> (8 <= lenN (cenc c))%N.
 Proof.
-  destruct c as [nm p|nm kids]; cbn [cwf]; intros [H _];
-    [rewrite lenN_cenc_leaf by exact H|rewrite lenN_cenc_node by exact H]; lia.
+  destruct c as [nm p|nm kids|nm p]; cbn [cwf]; intros [H _];
+    [rewrite lenN_cenc_leaf by exact H|rewrite lenN_cenc_node by exact H|rewrite lenN_cenc_large by exact H]; lia.
 Qed.
 
 Definition fits (c : ctree) : Prop := (lenN (cenc c) < 4294967296)%N.
@@ -116,7 +152,8 @@ Definition fits (c : ctree) : Prop := (lenN (cenc c) < 4294967296)%N.
 (* Size() of the decoded tree is the length of the canonical string *)
 Lemma tsize_erase ld : forall c, cwf ld c -> fits c -> tsize (erase c) = lenN (cenc c).
 Proof.
-  induction c as [nm p|nm kids IH] using ctree_ind2; intros Hw Hf.
+  induction c as [nm p|nm kids IH|nm p] using ctree_ind2; intros Hw Hf.
+  3:{ destruct Hw as [Hn _]. rewrite lenN_cenc_large by exact Hn. reflexivity. }
   - destruct Hw as [Hn _]. rewrite lenN_cenc_leaf by exact Hn. reflexivity.
   - apply cwf_node in Hw. destruct Hw as [Hn [_ Hk]]. unfold fits in Hf. rewrite lenN_cenc_node in * by exact Hn.
     cbn [erase tsize].
@@ -222,7 +259,32 @@ Qed.
 
 Lemma box_canon_sr_all : forall c, cwf ld c -> fits c -> box_canon_sr c.
 Proof.
-  induction c as [nm p|nm kids IH] using ctree_ind2; intros Hw Hf fuel sp pre post cst r s' Hs Hsp Hrun.
+  induction c as [nm p|nm kids IH|nm p] using ctree_ind2; intros Hw Hf fuel sp pre post cst r s' Hs Hsp Hrun.
+  3:{ (* leaf behind a 16-byte header *)
+    destruct Hw as [Hn [Hk [Hsr _]]]. unfold fits in Hf. rewrite lenN_cenc_large in * by exact Hn.
+    destruct fuel as [|f]; cbn [dec_box_sr] in Hrun; [apply pair_equal_spec in Hrun; destruct Hrun as [Hr' _]; left; symmetry; exact Hr'|].
+    cbn [cenc] in *.
+    change (scharge (tick 1) (sr_at (pre ++ (be4 1 ++ nm ++ be8 (16 + lenN p) ++ p) ++ post) (zlen pre) cst))
+      with (sr_at (pre ++ (be4 1 ++ nm ++ be8 (16 + lenN p) ++ p) ++ post) (zlen pre) (tick 1 cst)) in Hrun.
+    assert (Ebuf : pre ++ (be4 1 ++ nm ++ be8 (16 + lenN p) ++ p) ++ post = pre ++ be4 1 ++ nm ++ be8 (16 + lenN p) ++ (p ++ post))
+      by (rewrite <- !app_assoc; reflexivity).
+    rewrite Ebuf in Hrun, Hs. unfold sr_at in Hrun.
+    rewrite (hdr_sr_canon_large pre nm (16 + lenN p)%N (p ++ post) (tick 1 cst) Hn ltac:(lia) Hs) in Hrun.
+    cbn [hname hsize hlen sr] in Hrun.
+    assert (Hz4 : zlen nm = 4) by (unfold zlen; rewrite Hn; reflexivity).
+    rewrite (maxsize_ok p post) in Hrun; try lia; try (pose proof (zlen_nonneg pre); lia).
+    2:{ rewrite !zlen_app. unfold zlen at 2 4. cbn [be4 be8 length]. lia. }
+    cbn [andb] in Hrun. rewrite Hk in Hrun.
+    assert (Ebuf2 : pre ++ be4 1 ++ nm ++ be8 (16 + lenN p) ++ p ++ post = (pre ++ be4 1 ++ nm ++ be8 (16 + lenN p)) ++ p ++ post)
+      by (rewrite <- !app_assoc; reflexivity).
+    assert (Hz : zlen pre + 16 = zlen (pre ++ be4 1 ++ nm ++ be8 (16 + lenN p))).
+    { rewrite !zlen_app. unfold zlen at 3 5. cbn [be4 be8 length]. lia. }
+    rewrite Hz, Ebuf2 in Hrun.
+    destruct (Hsr (pre ++ be4 1 ++ nm ++ be8 (16 + lenN p)) post (tick 1 cst)) as [cst' E]; [rewrite <- Ebuf2; exact Hs|]. rewrite E in Hrun.
+    apply pair_equal_spec in Hrun; destruct Hrun as [Hr' Hs'']; subst r s'. right. split; [reflexivity|]. cbn [sr].
+    assert (P : zlen (pre ++ be4 1 ++ nm ++ be8 (16 + lenN p)) + zlen p = zlen pre + zlen (be4 1 ++ nm ++ be8 (16 + lenN p) ++ p))
+      by (rewrite !zlen_app; lia).
+    rewrite P, <- Ebuf2, <- Ebuf. reflexivity. }
   - (* leaf *)
     destruct Hw as [Hn [Hk [Hsr _]]]. unfold fits in Hf. rewrite lenN_cenc_leaf in * by exact Hn.
     destruct fuel as [|f]; cbn [dec_box_sr] in Hrun; [apply pair_equal_spec in Hrun; destruct Hrun as [Hr' _]; left; symmetry; exact Hr'|].
@@ -341,6 +403,33 @@ Proof.
   replace (size <? 8)%N with false by lia. reflexivity.
 Qed.
 
+Lemma hdr_r_canon_large pre nm size rest cst :
+  length nm = 4%nat -> (16 <= size < 4294967296)%N ->
+  decode_header (mkI (pre ++ be4 1 ++ nm ++ be8 size ++ rest) (lenN pre) cst)
+  = (Ok (HHdr (mkH nm size 16)), mkI (pre ++ be4 1 ++ nm ++ be8 size ++ rest) (lenN pre + 16) (allocn 8 (allocn 8 cst))).
+Proof.
+  intros Hn Hsz. unfold decode_header.
+  change (icharge (allocn 8) (mkI (pre ++ be4 1 ++ nm ++ be8 size ++ rest) (lenN pre) cst))
+    with (mkI (pre ++ be4 1 ++ nm ++ be8 size ++ rest) (lenN pre) (allocn 8 cst)).
+  assert (E : pre ++ be4 1 ++ nm ++ be8 size ++ rest = pre ++ (be4 1 ++ nm) ++ (be8 size ++ rest)) by (rewrite <- app_assoc; reflexivity).
+  rewrite E. rewrite read_full_mid by (rewrite app_length, Hn; reflexivity).
+  assert (G1 : gslice (be4 1 ++ nm) 0 4 = Ok (be4 1)).
+  { pose proof (gslice_mid [] (be4 1) nm) as G. cbn [app] in G. exact G. }
+  assert (G2 : gslice (be4 1 ++ nm) 4 8 = Ok nm).
+  { pose proof (gslice_mid (be4 1) nm []) as G. rewrite app_nil_r in G.
+    replace (zlen (be4 1)) with 4 in G by reflexivity.
+    replace (4 + zlen nm) with 8 in G by (unfold zlen; rewrite Hn; reflexivity). exact G. }
+  rewrite G1, G2. change (be (be4 1) 0) with 1%N. change (1 =? 1)%N with true. cbv iota.
+  change (icharge (allocn 8) (mkI (pre ++ (be4 1 ++ nm) ++ be8 size ++ rest) (lenN pre + 8) (allocn 8 cst)))
+    with (mkI (pre ++ (be4 1 ++ nm) ++ be8 size ++ rest) (lenN pre + 8) (allocn 8 (allocn 8 cst))).
+  assert (E2 : pre ++ (be4 1 ++ nm) ++ be8 size ++ rest = (pre ++ be4 1 ++ nm) ++ be8 size ++ rest) by (rewrite <- !app_assoc; reflexivity).
+  assert (Hz : (lenN pre + 8 = lenN (pre ++ be4 1 ++ nm))%N).
+  { rewrite !lenN_app. assert (lenN (be4 1) = 4%N) by reflexivity. assert (lenN nm = 4%N) by (unfold lenN; rewrite Hn; reflexivity). lia. }
+  rewrite E2, Hz. rewrite read_full_mid by reflexivity.
+  rewrite be_be8 by lia. replace (size <? 16)%N with false by lia.
+  f_equal. f_equal. lia.
+Qed.
+
 Lemma read_limited_mid pre x post cst : zlen (pre ++ x ++ post) < two63 ->
   read_limited (zlen x) (mkI (pre ++ x ++ post) (lenN pre) cst)
   = (x, mkI (pre ++ x ++ post) (lenN pre + lenN x) (if zlen x <=? 0 then cst else allocn (lenN x) cst)).
@@ -421,7 +510,27 @@ Qed.
 
 Lemma box_canon_r_all : forall c, cwf ld c -> fits c -> box_canon_r c.
 Proof.
-  induction c as [nm p|nm kids IH] using ctree_ind2; intros Hw Hf fuel sp pre post cst r s' Hs Hsp Hrun.
+  induction c as [nm p|nm kids IH|nm p] using ctree_ind2; intros Hw Hf fuel sp pre post cst r s' Hs Hsp Hrun.
+  3:{ (* leaf behind a 16-byte header *)
+    destruct Hw as [Hn [Hk [_ Hr]]]. unfold fits in Hf. rewrite lenN_cenc_large in * by exact Hn.
+    destruct fuel as [|f]; cbn [dec_box_r] in Hrun; [apply pair_equal_spec in Hrun; destruct Hrun as [Hr' _]; left; symmetry; exact Hr'|].
+    cbn [cenc] in *.
+    change (icharge (tick 1) (mkI (pre ++ (be4 1 ++ nm ++ be8 (16 + lenN p) ++ p) ++ post) (lenN pre) cst))
+      with (mkI (pre ++ (be4 1 ++ nm ++ be8 (16 + lenN p) ++ p) ++ post) (lenN pre) (tick 1 cst)) in Hrun.
+    assert (Ebuf : pre ++ (be4 1 ++ nm ++ be8 (16 + lenN p) ++ p) ++ post = pre ++ be4 1 ++ nm ++ be8 (16 + lenN p) ++ (p ++ post))
+      by (rewrite <- !app_assoc; reflexivity).
+    rewrite Ebuf in Hrun.
+    rewrite (hdr_r_canon_large pre nm (16 + lenN p)%N (p ++ post) (tick 1 cst) Hn ltac:(lia)) in Hrun.
+    cbn [hname] in Hrun. rewrite Hk in Hrun.
+    assert (Ebuf2 : pre ++ be4 1 ++ nm ++ be8 (16 + lenN p) ++ p ++ post = (pre ++ be4 1 ++ nm ++ be8 (16 + lenN p)) ++ p ++ post)
+      by (rewrite <- !app_assoc; reflexivity).
+    assert (Hz : (lenN pre + 16 = lenN (pre ++ be4 1 ++ nm ++ be8 (16 + lenN p)))%N).
+    { rewrite !lenN_app. assert (lenN (be4 1) = 4%N) by reflexivity. assert (lenN (be8 (16 + lenN p)) = 8%N) by reflexivity.
+      assert (lenN nm = 4%N) by (unfold lenN; rewrite Hn; reflexivity). lia. }
+    rewrite Hz, Ebuf2 in Hrun.
+    destruct (Hr (pre ++ be4 1 ++ nm ++ be8 (16 + lenN p)) post (allocn 8 (allocn 8 (tick 1 cst)))) as [cst' E]; [rewrite <- Ebuf2, <- Ebuf; exact Hs|]. rewrite E in Hrun.
+    apply pair_equal_spec in Hrun; destruct Hrun as [Hr' Hs'']; subst r s'. right. split; [reflexivity|]. cbn [ibuf ipos].
+    split; [rewrite Ebuf, Ebuf2; reflexivity|]. rewrite <- Hz. lia. }
   - (* leaf *)
     destruct Hw as [Hn [Hk [_ Hr]]]. unfold fits in Hf. rewrite lenN_cenc_leaf in * by exact Hn.
     destruct fuel as [|f]; cbn [dec_box_r] in Hrun; [apply pair_equal_spec in Hrun; destruct Hrun as [Hr' _]; left; symmetry; exact Hr'|].
@@ -573,6 +682,48 @@ Proof.
         cbn [orb]. unfold addu64. rewrite !N.mod_small by (unfold max_normal_payload in *; lia). lia.
       * destruct (eqb_name nm name_free || eqb_name nm name_skip); eexists; [|reflexivity].
         f_equal. f_equal. unfold addu64. rewrite N.mod_small; lia.
+Qed.
+
+(* mdat (and, on the decode side, unknown boxes) behind a 16-byte largesize header *)
+Lemma payload_len_large nm n : (n < 4294967296)%N -> payload_len (mkH nm (16 + n) 16) = Z.of_N n.
+Proof.
+  intros H. unfold payload_len, int_of_u64. cbn [hsize hlen].
+  rewrite (w64_id (Z.of_N (16 + n))) by (unfold two63; lia). rewrite w64_id by (unfold two63; lia). lia.
+Qed.
+
+Definition std_large_ok (nm p : list N) : Prop :=
+  length nm = 4%nat /\ std_kind nm = KLeaf /\ (eqb_name nm name_free || eqb_name nm name_skip) = false /\
+  (lenN p < 4294967280)%N.
+
+Lemma std_canon_large nm p : std_large_ok nm p -> canon_large std_leaves nm p.
+Proof.
+  intros [Hn [Hk [Hfs Hl]]]. split; [exact Hk|]. split.
+  - intros pre post cst Hall. cbn [ld_sr std_leaves]. unfold std_sr. cbn [hname hsize hlen sr scost].
+    rewrite payload_len_large by lia. rewrite <- zlen_lenN. rewrite read_bytes_mid by exact Hall.
+    cbn [rerr]. rewrite Hfs. destruct (eqb_name nm name_mdat) eqn:Em.
+    + eexists. f_equal. f_equal. unfold mdat_size.
+      replace (8 <? 16)%N with true by reflexivity. cbn [orb].
+      unfold addu64. rewrite !N.mod_small by lia. lia.
+    + eexists. reflexivity.
+  - intros pre post cst Hall. cbn [ld_r std_leaves]. unfold std_r, read_box_body. cbn [hname hsize hlen].
+    rewrite Hfs.
+    destruct (16 =? 16 + lenN p)%N eqn:E0.
+    + apply N.eqb_eq in E0. assert (H0 : lenN p = 0%N) by lia.
+      assert (p = []) by (destruct p; [reflexivity|unfold lenN in H0; cbn [length] in H0; lia]). subst p.
+      cbn [app]. replace (lenN pre + lenN (@nil N))%N with (lenN pre) by (unfold lenN; cbn [length]; lia).
+      replace (16 + lenN (@nil N))%N with 16%N by reflexivity.
+      destruct (eqb_name nm name_mdat); eexists; reflexivity.
+    + assert (Eb : subu64 (16 + lenN p) 16 = lenN p).
+      { unfold subu64. rewrite (N.mod_small 16) by lia.
+        replace (16 + lenN p + 18446744073709551616 - 16)%N with (lenN p + 1 * 18446744073709551616)%N by lia.
+        rewrite N.mod_add by lia. rewrite N.mod_small; lia. }
+      rewrite Eb. unfold int_of_u64. rewrite w64_id by (unfold two63; lia). rewrite <- zlen_lenN.
+      rewrite read_limited_mid by exact Hall. rewrite Z.eqb_refl.
+      destruct (eqb_name nm name_mdat) eqn:Em.
+      * eexists. f_equal. f_equal. unfold mdat_size.
+        replace (8 <? 16)%N with true by reflexivity. cbn [orb].
+        unfold addu64. rewrite !N.mod_small by lia. lia.
+      * eexists. reflexivity.
 Qed.
 
 (* ---------------------------------------------------------------- the two byte-level file loops on canonical files *)
